@@ -126,6 +126,7 @@ func checkC11(c *Ctx, r *Report, tier string) {
 	if n < 150 {
 		r.Unk("C11.R1", "module", "error-tests-count", "-", fmt.Sprintf("only %d error tests found (about 300 on the reference tree): the rule lost its anchor", n))
 	}
+	valueUsedErrorDiscarded(c, r, "C11.R1", prodFuncs(c, "storage", "services"))
 	c11R2(c, r)
 	c11R3(c, r)
 	notificationIdsAreRandom(c, r, "C11.R3")
@@ -1113,6 +1114,15 @@ func checkC09(c *Ctx, r *Report, tier string) {
 	}
 	n := nilErrRule(c, r, "C09.R5", path)
 	r.OKTrivial("C09.R5", "search-path", "error-tests-examined", "-", fmt.Sprintf("%d error tests in %d functions", n, len(path)))
+	valueUsedErrorDiscarded(c, r, "C09.R5", path)
+	// the comparator used by the merge
+	for _, o := range sub.Obls {
+		if strings.Contains(o.Key, "SearchResult).Less") {
+			o.Rule = "C09.R4"
+			o.Key = strings.Replace(o.Key, "C01.R4", "C09.R4", 1)
+			r.Obls = append(r.Obls, o)
+		}
+	}
 }
 
 func sameCollection(a, b ssa.Value) bool {
